@@ -115,9 +115,9 @@ def compare(rec, b, mjm, mjd, m, d, cmp, opts):
         cmp.close("efc_" + f, rg[f][ig], rr[f][ir], 5e-4)
 
 
-def sample(ctx, n, seed_off=0):
+def sample(ctx, n, seed_off=0, qclasses=("rand",)):
   return family.sample(ctx, n, seed_off=seed_off, maxbody=5, joints=JOINTS, geoms=GEOMS, feats=FEATS, maxfeat=8, cones=("pyramidal", "elliptic"),
-                       solvers=("Newton", "CG"), jacobians=("dense", "sparse", "auto"), qclasses=("rand",), vclasses=("rand", "zero"))
+                       solvers=("Newton", "CG"), jacobians=("dense", "sparse", "auto"), qclasses=qclasses, vclasses=("rand", "zero"))
 
 
 def run(ctx: core.Ctx):
